@@ -249,8 +249,8 @@ pub fn run(env: &Env, rec: &Recorder, w: Which) -> (String, Vec<&'static str>)
     {
         Which::C10 => "files of 1-15 canonical statements rendered from a structural model (path form x macro set x target x key-values/modifiers x message x args x layout x EOL x context), compared with the reference model in-process (parser hook) and through the executable (check report + edit result); non-trivial = a distinct statement combining >= 2 of {qualified path, target, key-values, modifier, multi-line, comment between arguments, escaped quote, CRLF, non-empty preceding context}",
         Which::C11 => "files mixing real statements with decoys (line/doc/block comments, unconfigured names incl. prefix/suffix/other module, configured names without literal, macro-like text in strings with escaped quotes); non-trivial = a distinct file with a decoy on the same or an adjacent line as a real statement, or a decoy on the last line without final newline",
-        Which::C13 => "structured-mode statements over the key-value grammar (0-3 pairs, all modifiers, shorthand keys, string values with ; and , / target / layouts / ref entry absent, valid at any position, or unusable); non-trivial = a distinct statement with a target, or other pairs, or a ref entry not in first position",
-        Which::C14 => "files of statements each preceded by a generated preamble (directive comment in // or /* */ form with random case and whitespace, look-alike text, directive separated by code/comment/blank lines, trailing directive comments); non-trivial = a distinct file with >= 1 effective directive and >= 1 directive look-alike that must have no effect",
+        Which::C13 => "structured-mode statements over the key-value grammar (0-3 pairs, all modifiers, shorthand keys, string values with ; and , / target / layouts / ref entry absent, valid at any position, or unusable - identifiers, strings, floats, calls, out-of-range numbers, digits followed by a type suffix inside an expression such as `2u8 * shard`); non-trivial = a distinct statement with a target, or other pairs, or a ref entry not in first position",
+        Which::C14 => "files of statements each preceded by a generated preamble (directive comment in // or /* */ form with random case and whitespace, look-alike text, directive separated by code/comment/blank lines - one blank line in 25 a whitespace-only line of 4090 ... 16500 characters -, trailing directive comments); non-trivial = a distinct file with >= 1 effective directive and >= 1 directive look-alike that must have no effect",
     };
     (
         rule.to_string(),
